@@ -12,6 +12,7 @@ import (
 	"bytes"
 	"context"
 	"encoding/json"
+	"errors"
 	"fmt"
 	"io"
 	"log/slog"
@@ -383,29 +384,53 @@ func serve(h content.HandlerFunc, url string) (status string, body string) {
 // after `after` objects have been opened for reading; 0 = before the request),
 // deadline (same, by an expired deadline).
 type reqCtx struct {
-	kind  string
+	kind  string // live, cancel, deadline, fault
 	after int
+	// kind fault: the reader of the merged object of day index faultDay fails after `after` records
+	faultDay  int
+	faultName string
 }
 
 func genReqCtx(maxAfter int) reqCtx {
 	switch vrnd.Intn(10) {
 	case 0:
-		return reqCtx{"cancel", 0}
+		return reqCtx{kind: "cancel", after: 0}
 	case 1:
-		return reqCtx{"cancel", vrnd.Intn(maxAfter + 1)}
+		return reqCtx{kind: "cancel", after: vrnd.Intn(maxAfter + 1)}
 	case 2:
-		return reqCtx{"deadline", vrnd.Intn(maxAfter + 1)}
+		return reqCtx{kind: "deadline", after: vrnd.Intn(maxAfter + 1)}
 	}
-	return reqCtx{"live", -1}
+	return reqCtx{kind: "live", after: -1}
 }
 
-func (c reqCtx) tokens() []string { return []string{c.kind, I(int64(c.after))} }
+func (c reqCtx) tokens() []string { return []string{c.kind, I(int64(c.after)), I(int64(c.faultDay))} }
+
+// withFault turns a live request into one hit by a read fault on one merged object of the range
+func withFault(c reqCtx, dates []string, counts []int) reqCtx {
+	if c.kind != "live" || len(dates) == 0 || !vrnd.Chance(18) {
+		return c
+	}
+	i := vrnd.Intn(len(dates))
+	k := 0
+	if counts[i] > 0 {
+		k = vrnd.Intn(counts[i] + 1)
+		if vrnd.Bool() {
+			k = vrnd.Intn(2) // the first record delivered, then the reset
+		}
+	}
+	return reqCtx{kind: "fault", after: k, faultDay: i, faultName: dates[i] + ".json"}
+}
 
 // serveWith runs mk(api) under the request context described by c: the buckets
 // are wrapped so that the context becomes done when the `after`-th reader is opened.
 func serveWith(c reqCtx, api *storage.API, mk func(*storage.API) content.HandlerFunc, url string) (string, string) {
 	if c.kind == "live" {
 		return serve(mk(api), url)
+	}
+	if c.kind == "fault" {
+		st := &fdState{faultName: c.faultName, faultAfter: c.after}
+		wrapped := &storage.API{Upload: &fdBucket{api.Upload, st}, Merge: &fdBucket{api.Merge, st}, Chart: &fdBucket{api.Chart, st}}
+		return serve(mk(wrapped), url)
 	}
 	var ctx context.Context
 	var cancel context.CancelFunc
@@ -856,6 +881,17 @@ func chartTokens(cd *chartdata) []string {
 	return t
 }
 
+// dirDigest: names and contents of the objects of a bucket directory
+func dirDigest(dir string) string {
+	ents, _ := os.ReadDir(dir)
+	var sb strings.Builder
+	for _, en := range ents {
+		b, _ := os.ReadFile(filepath.Join(dir, en.Name()))
+		fmt.Fprintf(&sb, "%s:%d:%x;", en.Name(), len(b), b)
+	}
+	return sb.String()
+}
+
 func dayNumber(t time.Time) int64 { return t.Unix() / 86400 }
 
 func writeMergedDirect(e *env, date string, reps []*telemetry.Report) {
@@ -947,6 +983,15 @@ func caseChart() {
 	}
 	h := handleChart(ucfg, e.api)
 	rc := genReqCtx(ndays)
+	{
+		var ds []string
+		var cs []int
+		for _, d := range days {
+			ds = append(ds, d.date)
+			cs = append(cs, len(d.objs))
+		}
+		rc = withFault(rc, ds, cs)
+	}
 	status, _ := serveWith(rc, e.api, func(a *storage.API) content.HandlerFunc { return handleChart(ucfg, a) }, url)
 	if rc.kind != "live" {
 		vout.Note("chart-request-context-" + rc.kind)
@@ -1347,13 +1392,22 @@ func caseSeq() {
 				url = "/chart/?date=" + dates[0]
 			}
 			rc := genReqCtx(ndays)
+			{
+				var cs []int
+				for _, d := range dates {
+					cs = append(cs, len(sortedNames(d)))
+				}
+				rc = withFault(rc, dates, cs)
+			}
+			chartBefore := dirDigest(filepath.Join(e.dir, "chart"))
 			status, _ := serveWith(rc, e.api, func(a *storage.API) content.HandlerFunc { return handleChart(ucfg, a) }, url)
 			if rc.kind != "live" {
 				vout.Note("seq-chart-request-context-" + rc.kind)
 			}
+			chartUnchanged := chartBefore == dirDigest(filepath.Join(e.dir, "chart"))
 			ops = append(ops, "chart")
 			ops = append(ops, rc.tokens()...)
-			ops = append(ops, I(dayNumber(start)), I(dayNumber(end)), status)
+			ops = append(ops, I(dayNumber(start)), I(dayNumber(end)), status, B(chartUnchanged))
 			if status == "ok" {
 				ents, _ := os.ReadDir(filepath.Join(e.dir, "chart"))
 				if len(ents) != 1 {
@@ -1519,14 +1573,41 @@ type fdState struct {
 	openR, peakR, openW, budget int
 	refused                      int
 	onOpen                       func() // called before each NewReader
+	faultName                    string // object whose reader fails ...
+	faultAfter                   int    // ... after delivering this many records (lines)
 }
+
+// faultReader delivers the first `after` lines of the object, one line per
+// Read (a short read ending at the newline), and then fails like a broken
+// network stream.
+type faultReader struct {
+	lines [][]byte
+	cur   []byte
+	after int
+	given int
+}
+
+func (r *faultReader) Read(p []byte) (int, error) {
+	if len(r.cur) == 0 {
+		if r.given >= r.after || r.given >= len(r.lines) {
+			return 0, errors.New("read tcp 10.0.0.1:443: connection reset by peer")
+		}
+		r.cur = r.lines[r.given]
+		r.given++
+	}
+	n := copy(p, r.cur)
+	r.cur = r.cur[n:]
+	return n, nil
+}
+func (r *faultReader) Close() error { return nil }
 type fdBucket struct {
 	storage.BucketHandle
 	st *fdState
 }
 type fdObject struct {
 	storage.ObjectHandle
-	st *fdState
+	st   *fdState
+	name string
 }
 type fdReader struct {
 	io.ReadCloser
@@ -1540,7 +1621,7 @@ type fdWriter struct {
 }
 
 func (b *fdBucket) Object(name string) storage.ObjectHandle {
-	return &fdObject{b.BucketHandle.Object(name), b.st}
+	return &fdObject{b.BucketHandle.Object(name), b.st, name}
 }
 func (o *fdObject) NewReader(ctx context.Context) (io.ReadCloser, error) {
 	if o.st.onOpen != nil {
@@ -1553,6 +1634,21 @@ func (o *fdObject) NewReader(ctx context.Context) (io.ReadCloser, error) {
 	r, err := o.ObjectHandle.NewReader(ctx)
 	if err != nil {
 		return nil, err
+	}
+	if o.st.faultName != "" && o.name == o.st.faultName {
+		data, _ := io.ReadAll(r)
+		r.Close()
+		fr := &faultReader{after: o.st.faultAfter}
+		for _, l := range bytes.SplitAfter(data, []byte("\n")) {
+			if len(l) > 0 {
+				fr.lines = append(fr.lines, l)
+			}
+		}
+		o.st.openR++
+		if o.st.openR > o.st.peakR {
+			o.st.peakR = o.st.openR
+		}
+		return &fdReader{fr, o.st, false}, nil
 	}
 	o.st.openR++
 	if o.st.openR > o.st.peakR {
